@@ -32,7 +32,7 @@ ANCHORS = ['penman.layout:reconfigure', 'penman.layout:rearrange', 'penman.layou
 PROBES = {'C17': 10}
 MIN_EVAL = {'quick': 500, 'thorough': 10000}   # graphs; each is run under 6 keys x 2 x 2
 REQUIRED_COUNTERS = ['reconfigure', 'rearrange', 'implicit-top', 'aligned-role', 'key:canon', 'key:alnum']
-MODELS_R = ['default', 'amr', 'mini', 'rand1', 'rand2', 'default', 'amr', 'rand3', 'rand4', 'rand6', 'rand7', 'rand8', 'inv']
+MODELS_R = ['default', 'amr', 'mini', 'rand1', 'rand2', 'default', 'amr', 'rand3', 'rand4', 'rand6', 'rand7', 'rand8', 'inv', 'both', 'prefix']
 KEYS = ['none', 'orig', 'alnum', 'canon', 'rand']
 
 
